@@ -677,7 +677,7 @@ def focus_sweep(seed, stats, found, ref, probes, pool, t_end, per_class, reps, w
 
 
 STATE_INPUTS = {'interp:recursionlimit': ['built_chains']}
-KNOWN_STATE = ('mindsdb_sql.parser.ast.select.identifier.RESERVED_KEYWORDS',)
+KNOWN_STATE = ('mindsdb_sql.parser.ast.select.identifier.RESERVED_KEYWORDS', 'interp:decimal')       # (decimal: flags of the per-thread context, set by SQLAlchemy's numeric literals)
 
 
 def _known_state(path):
